@@ -128,7 +128,9 @@ pub fn run_case(case: &Value, out: &mut Out) {
     let mode = case.get("mode").and_then(|m| m.as_str()).unwrap_or("full").to_string();
     let meta = case.get("meta").cloned().unwrap_or(json!({}));
     let (bytes, prog, enc) = case_bytes(case);
-    out.ev(&json!({"ev": "begin", "case": id, "mode": mode, "meta": meta, "len": bytes.len(),
+    // mode "bytes": the trace carries the (possibly patched) bytes; TLC derives the program from them (AseParse!Decode)
+    let bytes_field = if mode == "bytes" { json!(bytes) } else { json!([]) };
+    out.ev(&json!({"ev": "begin", "case": id, "mode": mode, "meta": meta, "len": bytes.len(), "bytes": bytes_field,
         "eof": enc.as_ref().map_or(bytes.len(), |e| e.end_of_frames),
         "hdr": prog.as_ref().map_or(json!([]), |p| json!([p.hdr])),
         "trailing": prog.as_ref().map_or(0, |p| p.trailing.len())}));
@@ -154,12 +156,16 @@ pub fn run_case(case: &Value, out: &mut Out) {
         "hook_chunks": nhook_chunks}));
     if let Some(ase) = &ld.ase {
         if mode != "load" {
-            let lim = Limits { pixels: mode == "full", max_canvas: if mode == "full" { 1 << 16 } else { 1 << 20 }, max_cels: if mode == "full" { 64 } else { 6 } };
+            let fullobs = mode == "full" || mode == "bytes";
+            let lim = Limits { pixels: fullobs, max_canvas: if fullobs { 1 << 16 } else { 1 << 20 }, max_cels: if fullobs { 64 } else { 6 } };
             let obs = observe::observe(ase, &lim);
             if case.get("twice").and_then(|t| t.as_bool()).unwrap_or(false) {
-                // determinism: second load of the same bytes, second observation of both
-                let ld2 = load_bytes(&bytes);
-                let same = ld2.ase.as_ref().map_or(false, |a2| observe::observe(a2, &lim) == obs && observe::observe(ase, &lim) == obs);
+                // determinism: further loads of the same bytes (each gets fresh hash seeds), second observation of the first
+                let mut same = observe::observe(ase, &lim) == obs;
+                for _ in 0..4 {
+                    let ld2 = load_bytes(&bytes);
+                    same = same && ld2.ase.as_ref().map_or(false, |a2| observe::observe(a2, &lim) == obs);
+                }
                 out.ev(&json!({"ev": "twice", "case": id, "equal": same}));
             }
             out.ev(&json!({"ev": "obs", "case": id, "obs": obs}));
